@@ -196,10 +196,15 @@ impl<CS: CLCiphersuite> PoKSignature<CL03<CS>> {
                         return false;
                     }
 
-                    let boolean_rproofs_mi = CLSPoK
+                    let rproof_mi = CLSPoK
                         .range_proofs_commited_mi
                         .get(idx)
-                        .expect("index overflow")
+                        .expect("index overflow");
+                    if rproof_mi.E != cmi.value {
+                        println!("Commitment on mi used in the PoK different from the one used in the Range Proof!");
+                        return false;
+                    }
+                    let boolean_rproofs_mi = rproof_mi
                         .verify::<CS::HashAlg>(
                             &gi,
                             &commitment_pk.h,
